@@ -371,6 +371,58 @@ func checkC16(p *core.Program, r *core.Report) {
 	}
 	r.Floor(R1, 18)
 
+	// ---- R5: a changed auto-accept flag is re-announced
+	const R5 = "C16.R5 flag-change-reannounced"
+	r.Rule(R5, "the announce routine reaches the provider's Announce on every path (unless no provider); SetAutoAccept re-announces whenever the service is announced")
+	providerNil := func(b *ssa.BasicBlock, idx int) bool {
+		i := core.BlockIf(b)
+		if i == nil {
+			return false
+		}
+		v, truth := core.Truth(i.Cond, idx)
+		bo, ok := v.(*ssa.BinOp)
+		if !ok || (bo.Op != token.EQL && bo.Op != token.NEQ) || !core.IsNilConst(bo.Y) {
+			return false
+		}
+		f, _ := core.LoadedField(bo.X)
+		return f != nil && f.Name() == "mdnsProvider" && truth == (bo.Op == token.EQL)
+	}
+	if bad := core.MustPass(ann, nil, func(in ssa.Instruction) bool { return core.IsInvokeOf(in, mAnn) }, providerNil); bad != nil {
+		r.Fail(R5, "AnnounceMdnsEntry always announces", p.Pos(bad.Pos()), "the announce routine can return without handing the current TXT record to the provider: a changed auto-accept flag (or the re-announce after a lost connection) keeps the old record")
+	} else {
+		r.OK(R5, "AnnounceMdnsEntry always announces", p.Pos(ann.Pos()), "every path with a provider reaches Announce")
+	}
+	if saa := p.Method("mdns", "MdnsManager", "SetAutoAccept"); saa == nil {
+		r.Unresolved(R5, "mdns.MdnsManager.SetAutoAccept")
+	} else {
+		notAnnounced := func(b *ssa.BasicBlock, idx int) bool {
+			i := core.BlockIf(b)
+			if i == nil {
+				return false
+			}
+			v, truth := core.Truth(i.Cond, idx)
+			c, ok := v.(*ssa.Call)
+			return ok && !truth && c.Call.StaticCallee() != nil && c.Call.StaticCallee().Name() == "isServiceAnnounced"
+		}
+		var st ssa.Instruction
+		core.EachInstr(saa, func(in ssa.Instruction) {
+			if f, _, _ := core.StoredField(in); f != nil && f.Name() == "autoaccept" {
+				st = in
+			}
+		})
+		callsAnn := func(in ssa.Instruction) bool {
+			c, ok := in.(*ssa.Call)
+			return ok && c.Call.StaticCallee() == ann
+		}
+		if st == nil {
+			r.Fail(R5, "SetAutoAccept stores the flag", p.Pos(saa.Pos()), "the flag is not stored")
+		} else if bad := core.PathSearch(saa, st, core.IsReturn, callsAnn, notAnnounced); bad != nil {
+			r.Fail(R5, "SetAutoAccept re-announces", p.Pos(bad.Pos()), "after storing a new auto-accept value an announced service is not re-announced on every path")
+		} else {
+			r.OK(R5, "SetAutoAccept re-announces", p.Pos(st.Pos()), "store, then announce unless not announced")
+		}
+	}
+
 	// ---- R2
 	n2 := 0
 	for _, fn := range p.FuncsOf("mdns") {
